@@ -53,6 +53,11 @@ StepOK(inst, pre, st) ==
   /\ \A j \in Items(inst) :
         st.w[j] = IF j \in Covered(inst, ToSetU(pre)) THEN 0 ELSE inst.w[j]
 
+\* C08 while a finished row is stepped on (padding): selection and remaining weights stay what the quota-sized selection implies
+PadStateOK(inst, pre, st) ==
+  /\ st.done /\ ToSetU(st.chosen) = ToSetU(pre)
+  /\ \A j \in Items(inst) : st.w[j] = IF j \in Covered(inst, ToSetU(pre)) THEN 0 ELSE inst.w[j]
+
 FinalOK(inst, sol, fin) == Len(sol) = inst.K /\ NoDup(sol)
 
 (* ------------------- PART 2: implementation model ----------------------- *)
